@@ -63,6 +63,89 @@ def single_return(d):
     return rets[0].value
 
 
+def _abs_variants(test):
+    """the test with every abs(x) replaced by x and by -x (both signs of the argument are faces of the arrangement), plus `x > 0` for the argument itself"""
+    import copy as _copy
+    calls = [c for c in ast.walk(test) if isinstance(c, ast.Call) and (dotted(c.func) or "").rsplit(".", 1)[-1] in ("abs", "fabs", "absolute") and len(c.args) == 1]
+    if not calls:
+        return [test]
+    out = []
+    for sign in (1, -1):
+        class _T(ast.NodeTransformer):
+            def visit_Call(self, c):
+                if (dotted(c.func) or "").rsplit(".", 1)[-1] in ("abs", "fabs", "absolute") and len(c.args) == 1:
+                    a = self.visit(c.args[0])
+                    return a if sign == 1 else ast.UnaryOp(op=ast.USub(), operand=a)
+                return self.generic_visit(c)
+        out.append(ast.fix_missing_locations(_T().visit(_copy.deepcopy(test))))
+    for c in calls:
+        out.append(ast.fix_missing_locations(ast.Compare(left=_copy.deepcopy(c.args[0]), ops=[ast.Gt()], comparators=[ast.Constant(0)])))
+    return out
+
+
+class _DistRewrite(ast.NodeTransformer):
+    """Rewrite the ways of writing the centre distance of two operands into the symbol it denotes:
+    |c1 - c2| -> __d__ ;  (c1-c2).(c1-c2), sum((c1-c2)**2) -> __d__ ** 2 ;  sqrt(x) stays a call (resolved when x is a known square).
+    `.item()` / float() wrappers are dropped.  Names bound once to the centre difference are read through."""
+
+    def __init__(self, p1, p2, raw):
+        self.p1, self.p2, self.raw = p1, p2, raw
+        self.hits = 0
+
+    def _is_diff(self, e, depth=0):
+        if isinstance(e, ast.Name) and e.id in self.raw and depth < 3:
+            return self._is_diff(self.raw[e.id], depth + 1)
+        if isinstance(e, ast.BinOp) and isinstance(e.op, ast.Sub):
+            a, b = norm_src(e.left), norm_src(e.right)
+            return {a, b} == {f"{self.p1}.center", f"{self.p2}.center"}
+        return False
+
+    def _d(self, power):
+        self.hits += 1
+        n = ast.Name(id="__d__", ctx=ast.Load())
+        return n if power == 1 else ast.BinOp(left=n, op=ast.Pow(), right=ast.Constant(2))
+
+    def visit_Call(self, c):
+        fn = dotted(c.func) or ""
+        last = fn.rsplit(".", 1)[-1]
+        if isinstance(c.func, ast.Attribute) and c.func.attr in ("item", "tolist") and not c.args:
+            return self.visit(c.func.value)
+        if last == "float" and len(c.args) == 1:
+            return self.visit(c.args[0])
+        if last == "norm" and len(c.args) == 1 and not c.keywords and self._is_diff(c.args[0]):
+            return self._d(1)
+        if last in ("dot", "inner", "vdot") and len(c.args) == 2 and norm_src(c.args[0]) == norm_src(c.args[1]) and self._is_diff(c.args[0]):
+            return self._d(2)
+        if last == "dot" and isinstance(c.func, ast.Attribute) and len(c.args) == 1 and norm_src(c.func.value) == norm_src(c.args[0]) and self._is_diff(c.args[0]):
+            return self._d(2)
+        if last == "sum":
+            arg = c.args[0] if c.args else (c.func.value if isinstance(c.func, ast.Attribute) else None)
+            if arg is not None:
+                if isinstance(arg, ast.BinOp) and isinstance(arg.op, ast.Pow) and isinstance(arg.right, ast.Constant) and arg.right.value == 2 and self._is_diff(arg.left):
+                    return self._d(2)
+                if isinstance(arg, ast.BinOp) and isinstance(arg.op, ast.Mult) and norm_src(arg.left) == norm_src(arg.right) and self._is_diff(arg.left):
+                    return self._d(2)
+                if isinstance(arg, ast.Call) and (dotted(arg.func) or "").endswith("square") and arg.args and self._is_diff(arg.args[0]):
+                    return self._d(2)
+        return self.generic_visit(c)
+
+    def visit_BinOp(self, b):
+        if isinstance(b.op, ast.MatMult) and norm_src(b.left) == norm_src(b.right) and self._is_diff(b.left):
+            return self._d(2)
+        return self.generic_visit(b)
+
+
+def _sqrt_atoms(inner_atoms=None):
+    """atoms hook: sqrt(x) / x ** 0.5 where x translates to the exact square of a symbol"""
+    def atoms(call, tr=None):
+        if inner_atoms is not None:
+            r = inner_atoms(call)
+            if r is not None:
+                return r
+        return None
+    return atoms
+
+
 def make_inline(ctx, scope_def, atoms=None):
     """Expand calls to static closed forms of this module (single-return defs)."""
     repo = ctx.repo
@@ -84,6 +167,13 @@ def make_inline(ctx, scope_def, atoms=None):
             a = atoms(call)
             if a is not None:
                 return a
+        if fn in ("np.sqrt", "math.sqrt", "numpy.sqrt", "sqrt") and len(call.args) == 1 and not call.keywords:
+            inner = tr.tr(call.args[0])
+            # the square root of an exact square of one symbol (a distance, a radius: non-negative by role)
+            for sname in sorted(inner.symbols() - {"pi"}):
+                if inner.same(S(sname) ** 2):
+                    return S(sname)
+            return None
         if target is None:
             return None
         expr = single_return(target)
@@ -263,21 +353,65 @@ def lens_cells(ctx, col):
     dv = norm_src(roles["d"].value) if "d" in roles else ""
     okd = dv in (f"np.linalg.norm({p1}.center - {p2}.center).item()", f"np.linalg.norm({p2}.center - {p1}.center).item()",
                  f"np.linalg.norm({p1}.center - {p2}.center)", f"np.linalg.norm({p2}.center - {p1}.center)")
-    col.judge("d" in roles, okd, "R-ROLE", qual, d.loc(roles["d"]) if "d" in roles else d.loc(),
-              "d is the distance between the two centres", dv, f"d = `{dv}`", stmt="dist")
-    if not (okr and "d" in roles):
-        return
+    via_rewrite = False
+    if okr and not okd:
+        # another way of getting at the centre distance (squared distance first, the root taken later, a named difference vector ...):
+        # every expression that denotes |c1 - c2| or its square is replaced by the symbol, and the body is evaluated as it stands
+        import copy as _copy
+        raw = {}
+        for s_ in body:
+            if isinstance(s_, ast.Assign) and len(s_.targets) == 1 and isinstance(s_.targets[0], ast.Name):
+                raw.setdefault(s_.targets[0].id, s_.value)
+        rw = _DistRewrite(p1, p2, raw)
+        new_rest = []
+        for s_ in body:
+            if s_ is roles.get("r"):
+                continue
+            if isinstance(s_, ast.Assign) and len(s_.targets) == 1 and isinstance(s_.targets[0], ast.Name) and rw._is_diff(s_.value):
+                continue  # the difference vector itself: only its norm / square enters
+            new_rest.append(ast.fix_missing_locations(rw.visit(_copy.deepcopy(s_))))
+        if rw.hits:
+            via_rewrite = True
+            rest = new_rest
+            col.ok("R-ROLE", qual, d.loc(), "d is the distance between the two centres", f"{rw.hits} expression(s) denoting |c1 - c2| or its square recognised", stmt="dist")
+    if not via_rewrite:
+        col.judge("d" in roles, okd, "R-ROLE", qual, d.loc(roles["d"]) if "d" in roles else d.loc(),
+                  "d is the distance between the two centres", dv, f"d = `{dv}`", stmt="dist")
+        if not (okr and "d" in roles):
+            return
     syms = ["d", "r1", "r2"]
     base = {s: S(s) for s in syms}
+    if via_rewrite:
+        base["__d__"] = S("d")
+        base.pop("d")
     # arrangement: oracle planes + every guard of the code
     planes = [S("d") - S("r1") - S("r2"), S("d") - S("r1") + S("r2"), S("d") + S("r1") - S("r2"), S("r1") - S("r2"), S("d")]
     try:
         probe = Translator(dict(base), make_inline(ctx, d), {"d": F(1), "r1": F(2), "r2": F(3), "pi": F(3)})
         for s in ast.walk(ast.Module(body=rest, type_ignores=[])):
+            if isinstance(s, ast.Assign) and len(s.targets) == 1 and isinstance(s.targets[0], ast.Name) and s.targets[0].id not in probe.env:
+                try:
+                    probe.env[s.targets[0].id] = probe.tr(s.value)  # locals the guards are written in (a squared distance, a sum of radii)
+                except (NotPolynomial, ZeroDivisionError):
+                    pass
             if isinstance(s, ast.If):
-                for g in probe.guard_polys(s.test):
-                    if not any(g.same(p) or g.same(-p) for p in planes):
+                for tst in _abs_variants(s.test):
+                    for g in probe.guard_polys(tst):
+                        if not any(g.same(p) or g.same(-p) for p in planes):
+                            planes.append(g)
+            if isinstance(s, ast.Call) and (dotted(s.func) or "").rsplit(".", 1)[-1] in ("abs", "fabs", "absolute", "min", "max", "minimum", "maximum"):
+                # abs / min / max outside a test select a case too: the sign of the argument (of the difference of the arguments) is a face
+                try:
+                    if len(s.args) == 1:
+                        g = probe.tr(s.args[0])
+                    elif len(s.args) == 2:
+                        g = probe.tr(s.args[0]) - probe.tr(s.args[1])
+                    else:
+                        g = None
+                    if g is not None and g.symbols() - {"pi"} and not any(g.same(p) or g.same(-p) for p in planes):
                         planes.append(g)
+                except (NotPolynomial, ZeroDivisionError):
+                    pass
     except (NotPolynomial, ZeroDivisionError, KeyError):
         pass
     cs = cells(planes, syms, GRID, positive={"r1", "r2"})
